@@ -1367,22 +1367,78 @@ Proof.
   unfold unload_fiber. simpl. rewrite upd_same. simpl. rewrite Hcal. simpl.
   unfold s_finish.
   eapply handback_switch with (d := d); eauto.
-  - congruence.
-  - simpl; auto.
   - simpl. rewrite !upd_same. rewrite !(upd_other (s_cur s) b) by auto. rewrite (Hfi b) by auto.
     rewrite poke_poke. unfold f_peek. rewrite Hstk, peek_snoc. reflexivity.
   - intros k Hk1 Hk2. simpl. rewrite !upd_other by auto. apply Hfi; auto.
   - simpl. rewrite !(upd_other b (s_cur s)) by auto. rewrite upd_same.
     unfold fiber_rel. simpl. split; [|split; [reflexivity|split; reflexivity]].
-    rewrite Har. unfold ar. now rewrite Hhp.
+    rewrite Har. unfold ar. simpl. now rewrite Hhp.
   - intros k Hk. simpl. rewrite Hcaps. destruct (m_caps m (s_cur s)) as [[slot|cv]|]; try reflexivity.
     now rewrite upd_other by auto.
-  - simpl. rewrite Hcaps. pose proof (R5 (s_cur s)) as H5. unfold cap_rel in *.
-    destruct (s_caps s (s_cur s)) as [x|], (m_caps m (s_cur s)) as [[slot|cv]|]; simpl; try rewrite upd_same; auto.
+  - simpl. rewrite Hcaps. pose proof (R5 (s_cur s)) as H5. unfold cap_rel in H5.
+    destruct (m_caps m (s_cur s)) as [[slot|cv]|] eqn:E; simpl; rewrite ?upd_same, ?E; unfold cap_rel;
+      destruct (s_caps s (s_cur s)) as [x|]; auto.
     + destruct H5 as (-> & _ & _). split; [reflexivity|].
-      rewrite Hstk, nth_local. now rewrite Hlo.
+      rewrite Hstk, nth_local. simpl. now rewrite Hlo.
     + destruct H5 as [H5a _]. congruence.
 Qed.
+
+Lemma stack_base_prefix : forall k c f, fiber_rel k c f -> c_status c <> SNew -> c_status c <> SDone ->
+  exists r, stack f = base k c ++ r.
+Proof.
+  intros k c f (_ & _ & H) H1 H2. destruct (c_status c); try congruence.
+  - destruct H as (-> & _). exists []. now rewrite app_nil_r.
+  - destruct H as (_ & _ & t & ex & hfr & -> & _). eexists; reflexivity.
+  - destruct H as (_ & _ & ex & hfr & -> & _). eexists; reflexivity.
+Qed.
+
+Lemma fiber_rel_set_local : forall k c f x v, fiber_rel k c f -> c_status c <> SNew -> c_status c <> SDone ->
+  fiber_rel k (set_locals (set_var x v (c_locals c)) c) (set_stack (set_nth (ar c + var_ix x) v (stack f)) f).
+Proof.
+  intros k c f x v (Ha & Hc & H) H1 H2. unfold fiber_rel. simpl.
+  split; [exact Ha|]. split; [exact Hc|].
+  destruct (c_status c); try congruence.
+  - destruct H as (Hs & Hf & Hh). split; [|split; auto].
+    rewrite Hs. pose proof (set_nth_local k c [] x v) as Hl. rewrite !app_nil_r in Hl. exact Hl.
+  - destruct H as (Hfr & Hh & t & ex & hfr & Hs & Hf & Hok). split; [exact Hfr|]. split; [exact Hh|].
+    exists t, ex, hfr. split; [|split; auto]. rewrite Hs. apply set_nth_local.
+  - destruct H as (Hfr & Hh & ex & hfr & Hs & Hf & Hok). split; [exact Hfr|]. split; [exact Hh|].
+    exists ex, hfr. split; [|split; auto]. rewrite Hs. apply set_nth_local.
+Qed.
+
+Lemma get_set_var : forall x v l, get_var x (set_var x v l) = v.
+Proof. intros [] v l; reflexivity. Qed.
+
+Lemma cap_rel_ext : forall c c' sc mc,
+  c_status c' = c_status c -> c_hasparam c' = c_hasparam c -> (c_status c = SDone -> c_locals c' = c_locals c) ->
+  cap_rel c sc mc -> cap_rel c' sc mc.
+Proof.
+  intros c c' sc mc Hs Hp Hl H. unfold cap_rel in *. destruct sc as [x|], mc as [[slot|v]|]; auto.
+  - unfold ar in *. rewrite Hp, Hs. exact H.
+  - destruct H as [Hd ->]. rewrite Hs, (Hl Hd). auto.
+Qed.
+
+Lemma peek_push : forall v f, f_peek 0 (f_push v f) = v.
+Proof. intros; unfold f_peek, f_push; simpl. apply peek_snoc. Qed.
+
+Lemma nth_above_base : forall k c l j d, nth (blen c + j) (base k c ++ l) d = nth j l d.
+Proof.
+  intros. rewrite app_nth2 by (rewrite base_len; lia). rewrite base_len. f_equal. lia.
+Qed.
+
+Lemma enter_helper_facts : forall h n ret f k c l ipb fb,
+  stack f = base k c ++ l -> List.length l = S n -> frames f = [bframe k ipb fb] ->
+  stack (enter_helper h n ret f) = base k c ++ l /\
+  frames (enter_helper h n ret f) = [mkFrame (VHelper h) (blen c) KHelperRet true; bframe k ret false] /\
+  handlers (enter_helper h n ret f) = handlers f /\ caller (enter_helper h n ret f) = caller f /\
+  call_arity (enter_helper h n ret f) = call_arity f.
+Proof.
+  intros h n ret f k c l ipb fb Hs Hl Hf. unfold enter_helper, save_ip. rewrite Hf. simpl.
+  rewrite Hs, app_length, base_len, Hl. replace (blen c + S n - S n) with (blen c) by lia.
+  repeat split; reflexivity.
+Qed.
+
+Ltac side := try (upds; fail); try (rewrite ?upd_same; simpl; auto; fail).
 
 Lemma step_sim : forall p s m, R s m -> sim_result (step_S p s) (step_M true p m).
 Proof.
@@ -1394,7 +1450,11 @@ Proof.
   { intros e. apply (eval_agree (s_cur s)); [exact Har|]. exists []. now rewrite app_nil_r. }
   unfold step_S, step_M. rewrite R1, Hfr. simpl.
   destruct (c_code (s_co s (s_cur s))) as [|a rest] eqn:Hcode.
-  - admit.
+  - (* end of the body: implicit return nil *)
+    replace (s_return s VNil) with (s_return (mkS (s_cur s) (s_co s) (s_caps s) (s_out s)) VNil) by (destruct s; reflexivity).
+    eapply return_sim with (fibs1 := fibers (m_vm m)) (hdl := handling (m_vm m)); eauto.
+    + destruct (m_vm m); simpl in *; congruence.
+    + unfold f_push; simpl. rewrite Hstk. reflexivity.
   - destruct a.
     + (* print *)
       simpl. norm_goal R1 R2. rewrite Hev.
@@ -1409,11 +1469,140 @@ Proof.
         pose proof (set_nth_local (s_cur s) (s_co s (s_cur s)) [] x (s_eval (s_co s (s_cur s)) e)) as Hl.
         rewrite !app_nil_r in Hl. exact Hl.
       * apply (cap_upd_running s m); auto; upds; simpl; auto.
-    + admit.
-    + admit.
-    + admit.
-    + admit.
-    + admit.
+    + (* yield *)
+      destruct nested.
+      * simpl. unfold fiber_yield, set_fiber, s_upd_cur, set_co, s_unfresh_if, s_upd_cur, set_co. simpl. rewrite R1.
+        set (f1 := set_frames [set_ip (KBody rest) (bframe (s_cur s) (KBody (AYield dst arg true :: rest)) (c_fresh (s_co s (s_cur s))))] (fibers (m_vm m) (s_cur s))).
+        destruct arg as [e|]; simpl.
+        -- rewrite !upd_same. rewrite Hev.
+           set (v := s_eval (s_co s (s_cur s)) e).
+           destruct (enter_helper_facts HY1 1 (KStore dst rest) (f_push v (f_push (VHelper HY1) f1)) (s_cur s) (s_co s (s_cur s))
+                       [VHelper HY1; v] (KBody rest) (c_fresh (s_co s (s_cur s)))) as (E1 & E2 & E3 & E4 & E5).
+           { unfold f_push, f1. simpl. rewrite Hstk, <- app_assoc. reflexivity. } { reflexivity. } { reflexivity. }
+           set (fh := enter_helper HY1 1 (KStore dst rest) (f_push v (f_push (VHelper HY1) f1))) in *. clearbody fh.
+           assert (Hgl : get_local 1 (f_push VFiberClass fh) = v).
+           { unfold get_local, f_push. simpl. rewrite E2, E1. simpl. rewrite <- app_assoc. rewrite nth_above_base. reflexivity. }
+           rewrite Hgl, peek_push.
+           eapply yield_sim with (arg := Some v) (junk := [VHelper HY1; v]) (hfr := [mkFrame (VHelper HY1) (blen (s_co s (s_cur s))) KHelperRet false]); eauto; side.
+           ++ rewrite upd_same. unfold f_push. simpl. rewrite E1, <- !app_assoc. reflexivity.
+           ++ rewrite !upd_same. unfold save_ip, f_push. simpl. rewrite E2. simpl. reflexivity.
+           ++ right. eauto.
+           ++ rewrite upd_same. unfold f_push; simpl. rewrite E3. exact Hhs.
+           ++ rewrite upd_same. unfold f_push; simpl. rewrite E4. exact Hcal.
+           ++ rewrite upd_same. unfold f_push; simpl. rewrite E5. exact Har.
+        -- rewrite !upd_same.
+           destruct (enter_helper_facts HY0 0 (KStore dst rest) (f_push (VHelper HY0) f1) (s_cur s) (s_co s (s_cur s))
+                       [VHelper HY0] (KBody rest) (c_fresh (s_co s (s_cur s)))) as (E1 & E2 & E3 & E4 & E5).
+           { unfold f_push, f1. simpl. rewrite Hstk. reflexivity. } { reflexivity. } { reflexivity. }
+           set (fh := enter_helper HY0 0 (KStore dst rest) (f_push (VHelper HY0) f1)) in *. clearbody fh.
+           eapply yield_sim with (arg := None) (junk := [VHelper HY0]) (hfr := [mkFrame (VHelper HY0) (blen (s_co s (s_cur s))) KHelperRet false]); eauto; side.
+           ++ rewrite upd_same. unfold f_push. simpl. rewrite E1, <- !app_assoc. reflexivity.
+           ++ rewrite !upd_same. unfold save_ip, f_push. simpl. rewrite E2. simpl. reflexivity.
+           ++ right. eauto.
+           ++ rewrite upd_same. unfold f_push; simpl. rewrite E3. exact Hhs.
+           ++ rewrite upd_same. unfold f_push; simpl. rewrite E4. exact Hcal.
+           ++ rewrite upd_same. unfold f_push; simpl. rewrite E5. exact Har.
+      * simpl. unfold fiber_yield, set_fiber, s_upd_cur, set_co. simpl. rewrite R1.
+        destruct arg as [e|]; simpl.
+        -- rewrite upd_same, peek_push, Hev.
+           eapply yield_sim with (arg := Some (s_eval (s_co s (s_cur s)) e)) (junk := []) (hfr := []); eauto; side.
+           ++ rewrite upd_same. unfold f_push. simpl. rewrite Hstk, <- app_assoc. reflexivity.
+           ++ left; auto.
+        -- eapply yield_sim with (arg := None) (junk := []) (hfr := []); eauto; side.
+           ++ rewrite upd_same. unfold f_push. simpl. rewrite Hstk. reflexivity.
+           ++ left; auto.
+    + (* call *)
+      destruct (fdef_of p k) eqn:Hfd; [|simpl; reflexivity].
+      assert (Hk0 : k <> 0) by (intros ->; discriminate).
+      destruct nested.
+      * simpl. unfold set_fiber, s_upd_cur, set_co, s_unfresh_if, s_upd_cur, set_co. simpl. rewrite R1.
+        set (f1 := set_frames [set_ip (KBody rest) (bframe (s_cur s) (KBody (ACall dst k arg true :: rest)) (c_fresh (s_co s (s_cur s))))] (fibers (m_vm m) (s_cur s))).
+        destruct arg as [e|]; simpl.
+        -- rewrite Hev.
+           set (v := s_eval (s_co s (s_cur s)) e).
+           destruct (enter_helper_facts HC1 2 (KStore dst rest) (f_push v (f_push (VFiber k) (f_push (VHelper HC1) f1))) (s_cur s) (s_co s (s_cur s))
+                       [VHelper HC1; VFiber k; v] (KBody rest) (c_fresh (s_co s (s_cur s)))) as (E1 & E2 & E3 & E4 & E5).
+           { unfold f_push, f1. simpl. rewrite Hstk, <- !app_assoc. reflexivity. } { reflexivity. } { reflexivity. }
+           set (fh := enter_helper HC1 2 (KStore dst rest) (f_push v (f_push (VFiber k) (f_push (VHelper HC1) f1)))) in *. clearbody fh.
+           assert (Hgl1 : get_local 1 fh = VFiber k).
+           { unfold get_local. rewrite E2, E1. simpl. rewrite nth_above_base. reflexivity. }
+           assert (Hgl2 : get_local 2 (f_push (VFiber k) fh) = v).
+           { unfold get_local, f_push. simpl. rewrite E2, E1. simpl. rewrite <- app_assoc. rewrite nth_above_base. reflexivity. }
+           rewrite Hgl1, Hgl2.
+           eapply call_sim with (arg := Some v) (junk := [VHelper HC1; VFiber k; v]) (hfr := [mkFrame (VHelper HC1) (blen (s_co s (s_cur s))) KHelperRet false]); eauto; side.
+           ++ rewrite upd_same. unfold f_push. simpl. rewrite E1, <- !app_assoc. reflexivity.
+           ++ rewrite !upd_same. unfold save_ip, f_push. simpl. rewrite E2. simpl. reflexivity.
+           ++ right. eauto.
+           ++ rewrite !upd_same. unfold is_new, f_push. simpl. rewrite E2. reflexivity.
+           ++ rewrite upd_same. unfold f_push; simpl. rewrite E3. exact Hhs.
+           ++ rewrite upd_same. unfold f_push; simpl. rewrite E4. exact Hcal.
+           ++ rewrite upd_same. unfold f_push; simpl. rewrite E5. exact Har.
+        -- destruct (enter_helper_facts HC0 1 (KStore dst rest) (f_push (VFiber k) (f_push (VHelper HC0) f1)) (s_cur s) (s_co s (s_cur s))
+                       [VHelper HC0; VFiber k] (KBody rest) (c_fresh (s_co s (s_cur s)))) as (E1 & E2 & E3 & E4 & E5).
+           { unfold f_push, f1. simpl. rewrite Hstk, <- !app_assoc. reflexivity. } { reflexivity. } { reflexivity. }
+           set (fh := enter_helper HC0 1 (KStore dst rest) (f_push (VFiber k) (f_push (VHelper HC0) f1))) in *. clearbody fh.
+           assert (Hgl1 : get_local 1 fh = VFiber k).
+           { unfold get_local. rewrite E2, E1. simpl. rewrite nth_above_base. reflexivity. }
+           rewrite Hgl1.
+           eapply call_sim with (arg := None) (junk := [VHelper HC0; VFiber k]) (hfr := [mkFrame (VHelper HC0) (blen (s_co s (s_cur s))) KHelperRet false]); eauto; side.
+           ++ rewrite upd_same. unfold f_push. simpl. rewrite E1, <- !app_assoc. reflexivity.
+           ++ rewrite !upd_same. unfold save_ip, f_push. simpl. rewrite E2. simpl. reflexivity.
+           ++ right. eauto.
+           ++ rewrite !upd_same. unfold is_new, f_push. simpl. rewrite E2. reflexivity.
+           ++ rewrite upd_same. unfold f_push; simpl. rewrite E3. exact Hhs.
+           ++ rewrite upd_same. unfold f_push; simpl. rewrite E4. exact Hcal.
+           ++ rewrite upd_same. unfold f_push; simpl. rewrite E5. exact Har.
+      * simpl. unfold set_fiber, s_upd_cur, set_co. simpl. rewrite R1.
+        destruct arg as [e|]; simpl.
+        -- rewrite Hev.
+           eapply call_sim with (arg := Some (s_eval (s_co s (s_cur s)) e)) (junk := []) (hfr := []); eauto; side.
+           ++ rewrite upd_same. unfold f_push. simpl. rewrite Hstk, <- app_assoc. reflexivity.
+           ++ left; auto.
+        -- eapply call_sim with (arg := None) (junk := []) (hfr := []); eauto; side.
+           ++ rewrite upd_same. unfold f_push. simpl. rewrite Hstk. reflexivity.
+           ++ left; auto.
+    + (* call with two arguments: always a wrong argument count *)
+      destruct (fdef_of p k) eqn:Hfd; [|simpl; reflexivity].
+      simpl. unfold set_fiber, s_upd_cur, set_co. simpl. rewrite R1, !Hev.
+      set (f1 := set_frames [set_ip (KBody rest) (bframe (s_cur s) (KBody (ACall2 k e1 e2 :: rest)) (c_fresh (s_co s (s_cur s))))] (fibers (m_vm m) (s_cur s))).
+      set (v1 := s_eval (s_co s (s_cur s)) e1). set (v2 := s_eval (s_co s (s_cur s)) e2).
+      set (f2 := f_push v2 (f_push v1 (f_push (VFiber k) f1))).
+      assert (Hs2 : stack f2 = base (s_cur s) (s_co s (s_cur s)) ++ [VFiber k; v1; v2]).
+      { unfold f2, f_push, f1. simpl. rewrite Hstk, <- !app_assoc. reflexivity. }
+      set (co2 := upd (s_cur s) (set_code rest (s_co s (s_cur s))) (s_co s)).
+      set (fibs2 := upd (s_cur s) f2 (fibers (m_vm m))).
+      assert (Hrt : is_new (fibs2 k) = c_fresh (co2 k) /\ call_arity (fibs2 k) - 1 = nparams (c_hasparam (co2 k))).
+      { unfold fibs2, co2. destruct (Nat.eq_dec k (s_cur s)) as [->|Hk].
+        - rewrite !upd_same. split; [reflexivity|]. unfold f2, f_push, f1; simpl. rewrite Har. unfold ar, nparams.
+          destruct (c_hasparam (s_co s (s_cur s))); reflexivity.
+        - rewrite !upd_other by auto. split; [apply (is_new_fresh k); auto|].
+          destruct (R4 k) as (Hak & _). rewrite Hak. unfold ar, nparams. destruct (c_hasparam (s_co s k)); reflexivity. }
+      destruct Hrt as (Hn & Ha).
+      unfold fiber_call. simpl. fold fibs2. unfold fibs2 at 1. rewrite upd_same.
+      assert (Hpk : f_peek 2 f2 = VFiber k).
+      { unfold f_peek. rewrite Hs2, rev_app_distr. reflexivity. }
+      rewrite Hpk, Hn, Ha. unfold s_resume, arity_check. simpl. fold co2.
+      assert (Herr : forall e,
+        sim_result (s_raise (mkS (s_cur s) co2 (s_caps s) (s_out s)) (VErr e))
+                   (after_unwind (mkM (mkVm (Some (s_cur s)) (upd (s_cur s) f1 (fibers (m_vm m))) (handling (m_vm m))) (m_caps m) (m_out m) (m_sched m))
+                                 (native_error (mkVm (Some (s_cur s)) fibs2 (handling (m_vm m))) e))).
+      { intros e. unfold native_error, set_fiber. simpl.
+        eapply raise_sim with (junk := [VFiber k; v1]) (hfr := []); eauto; unfold co2, fibs2; side.
+        rewrite !upd_same. unfold f_poke0. cbn [stack set_stack]. rewrite Hs2.
+          change [VFiber k; v1; v2] with ([VFiber k; v1] ++ [v2]). rewrite app_assoc, removelast_snoc, <- app_assoc. reflexivity. }
+      destruct (c_fresh (co2 k)).
+      * unfold nparams. destruct (c_hasparam (co2 k)); simpl; apply Herr.
+      * simpl. apply Herr.
+    + (* return *)
+      unfold s_upd_cur, set_co. simpl.
+      eapply return_sim with (fibs1 := upd (s_cur s) (set_frames [set_ip (KBody rest) (bframe (s_cur s) (KBody (AReturn arg :: rest)) (c_fresh (s_co s (s_cur s))))] (fibers (m_vm m) (s_cur s))) (fibers (m_vm m)))
+                             (hdl := handling (m_vm m)); eauto; try (upds; fail); try (rewrite upd_same; simpl; auto; fail).
+      * simpl. unfold set_fiber. now rewrite R1.
+      * unfold f_push; simpl. rewrite Hstk. destruct arg; simpl; rewrite ?Hev; reflexivity.
+    + (* throw *)
+      unfold s_upd_cur, set_co, throw, set_handling, set_fiber. simpl. rewrite R1.
+      eapply raise_sim with (junk := []) (hfr := []); eauto; try (upds; fail); try (rewrite upd_same; simpl; auto; fail).
+      rewrite upd_same. unfold f_push. simpl. rewrite Hstk. reflexivity.
     + (* has_finished *)
       destruct (fdef_of p k); [|simpl; reflexivity].
       simpl. norm_goal R1 R2.
@@ -1453,6 +1642,157 @@ Proof.
         -- rewrite !upd_same. simpl. unfold slot_of. rewrite Har. unfold ar; simpl. rewrite I1.
            repeat split; auto; discriminate.
         -- rewrite !upd_other by auto. apply R5.
-    + admit.
-    + admit.
-Admitted.
+    + (* print captured *)
+      pose proof (R5 k) as H5k. unfold cap_rel in H5k.
+      destruct (s_caps s k) as [x|] eqn:Hsc, (m_caps m k) as [[slot|cv]|] eqn:Hmc; try contradiction.
+      * (* open: read the slot of fiber k *)
+        destruct H5k as (-> & Hn1 & Hn2).
+        destruct (stack_base_prefix k _ _ (R4 k) Hn1 Hn2) as [r Hr].
+        simpl. norm_goal R1 R2. rewrite Hr, nth_local.
+        replace (c_locals (upd (s_cur s) (set_code rest (s_co s (s_cur s))) (s_co s) k)) with (c_locals (s_co s k))
+          by (destruct (Nat.eq_dec k (s_cur s)) as [->|Hk]; [now rewrite upd_same|now rewrite upd_other by auto]).
+        eapply R_local; [exact HR|upds|upds|upds|upds|simpl; auto|simpl; auto| |].
+        -- apply fiber_rel_running_intro; simpl; auto.
+        -- apply (cap_upd_running s m); auto; upds; simpl; auto.
+      * (* closed *)
+        destruct H5k as (Hd & ->).
+        simpl. norm_goal R1 R2.
+        replace (c_locals (upd (s_cur s) (set_code rest (s_co s (s_cur s))) (s_co s) k)) with (c_locals (s_co s k))
+          by (destruct (Nat.eq_dec k (s_cur s)) as [->|Hk]; [now rewrite upd_same|now rewrite upd_other by auto]).
+        eapply R_local; [exact HR|upds|upds|upds|upds|simpl; auto|simpl; auto| |].
+        -- apply fiber_rel_running_intro; simpl; auto.
+        -- apply (cap_upd_running s m); auto; upds; simpl; auto.
+      * simpl. norm_goal R1 R2.
+        eapply R_local; [exact HR|upds|upds|upds|upds|simpl; auto|simpl; auto| |].
+        -- apply fiber_rel_running_intro; simpl; auto.
+        -- apply (cap_upd_running s m); auto; upds; simpl; auto.
+    + (* set captured *)
+      pose proof (R5 k) as H5k. unfold cap_rel in H5k.
+      assert (Hrun : fiber_rel (s_cur s) (set_fresh false (set_code rest (s_co s (s_cur s))))
+                (save_ip (KBody rest) (set_frames [set_ip (KBody rest) (bframe (s_cur s) (KBody (ASetCap k e :: rest)) (c_fresh (s_co s (s_cur s))))] (fibers (m_vm m) (s_cur s))))).
+      { apply fiber_rel_running_intro; simpl; auto. }
+      destruct (s_caps s k) as [x|] eqn:Hsc, (m_caps m k) as [[slot|cv]|] eqn:Hmc; try contradiction.
+      * (* open: write the slot of fiber k *)
+        destruct H5k as (-> & Hn1 & Hn2).
+        simpl. norm_goal R1 R2. rewrite Hev.
+        unfold R. simpl. split; [reflexivity|]. split; [reflexivity|]. split; [|split].
+        -- apply (inv_S_ext (s_cur s) (s_co s)); [|exact R3]. intros j.
+           destruct (Nat.eq_dec j k) as [->|Hjk]; destruct (Nat.eq_dec k (s_cur s)) as [Hkm|Hkm]; try subst k;
+             try (destruct (Nat.eq_dec j (s_cur s)) as [->|Hjm]); rewrite ?upd_same, ?upd_other by auto; simpl;
+             rewrite ?upd_same, ?upd_other by auto; simpl; auto.
+        -- intros j. destruct (Nat.eq_dec j k) as [->|Hjk].
+           ++ rewrite !upd_same. destruct (Nat.eq_dec k (s_cur s)) as [->|Hkm].
+              ** rewrite !upd_same. apply (fiber_rel_set_local (s_cur s) _ _ x _ Hrun); simpl; rewrite I1; discriminate.
+              ** rewrite !upd_other by auto. apply fiber_rel_set_local; auto.
+           ++ rewrite !(upd_other k j) by auto. destruct (Nat.eq_dec j (s_cur s)) as [->|Hjm].
+              ** rewrite !upd_same. exact Hrun.
+              ** rewrite !upd_other by auto. apply R4.
+        -- intros j. apply cap_rel_ext with (c := s_co s j); [| | |apply R5];
+             destruct (Nat.eq_dec j k) as [->|Hjk]; destruct (Nat.eq_dec k (s_cur s)) as [Hkm|Hkm]; try subst k;
+             try (destruct (Nat.eq_dec j (s_cur s)) as [->|Hjm]); rewrite ?upd_same, ?upd_other by auto; simpl;
+             rewrite ?upd_same, ?upd_other by auto; simpl; auto; try congruence.
+      * (* closed: write the cell *)
+        destruct H5k as (Hd & Hcv).
+        assert (Hkm : k <> s_cur s) by (intros ->; congruence).
+        simpl. norm_goal R1 R2. rewrite Hev.
+        unfold R. simpl. split; [reflexivity|]. split; [reflexivity|]. split; [|split].
+        -- apply (inv_S_ext (s_cur s) (s_co s)); [|exact R3]. intros j.
+           destruct (Nat.eq_dec j k) as [->|Hjk]; [|destruct (Nat.eq_dec j (s_cur s)) as [->|Hjm]];
+             rewrite ?upd_same, ?upd_other by auto; simpl; rewrite ?upd_same, ?upd_other by auto; simpl; auto.
+        -- intros j. destruct (Nat.eq_dec j k) as [->|Hjk].
+           ++ rewrite !upd_same. rewrite !upd_other by auto.
+              pose proof (R4 k) as H4k. unfold fiber_rel in *. simpl. rewrite Hd in *. exact H4k.
+           ++ rewrite !(upd_other k j) by auto. destruct (Nat.eq_dec j (s_cur s)) as [->|Hjm].
+              ** rewrite !upd_same. exact Hrun.
+              ** rewrite !upd_other by auto. apply R4.
+        -- intros j. destruct (Nat.eq_dec j k) as [->|Hjk].
+           ++ rewrite !upd_same. rewrite !upd_other by auto. rewrite Hsc. unfold cap_rel. simpl.
+              split; [exact Hd|]. now rewrite get_set_var.
+           ++ rewrite !(upd_other k j) by auto. destruct (Nat.eq_dec j (s_cur s)) as [->|Hjm].
+              ** rewrite !upd_same. eapply cap_rel_running; [exact I1| | |apply R5]; auto.
+              ** rewrite !upd_other by auto. apply R5.
+      * simpl. norm_goal R1 R2.
+        eapply R_local; [exact HR|upds|upds|upds|upds|simpl; auto|simpl; auto| |].
+        -- apply fiber_rel_running_intro; simpl; auto.
+        -- apply (cap_upd_running s m); auto; upds; simpl; auto.
+Qed.
+
+Lemma run_sim : forall p fuel s m, R s m -> fst (run_M true p fuel m) = run_S p fuel s.
+Proof.
+  intros p fuel; induction fuel as [|n IH]; intros s m HR; simpl.
+  - destruct HR as (_ & H2 & _). now rewrite H2.
+  - pose proof (step_sim p s m HR) as Hs.
+    destruct (step_S p s) as [s'|o], (step_M true p m) as [m'|[o' sch]]; simpl in Hs; try contradiction.
+    + apply IH; exact Hs.
+    + subst o'. destruct HR as (_ & H2 & _). simpl. now rewrite H2.
+Qed.
+
+Lemma init_related : forall p, exists st, init_M true p = Some st /\ R (init_S p) st.
+Proof.
+  intros p. eexists. split; [reflexivity|].
+  unfold R, init_S. simpl. split; [reflexivity|]. split; [reflexivity|]. split; [|split].
+  - unfold inv_S. simpl. split; [reflexivity|].
+    assert (Hb : forall k, c_back (match k with
+              | 0 => mkCoro SRunning true false VNil nil_locals (p_main p) [] None
+              | S j => match nth_error (p_fibers p) j with
+                       | Some d => mkCoro SNew true (fd_param d) VNil nil_locals (fd_body d) [] None
+                       | None => dead_coro end end) = None).
+    { intros [|j]; [reflexivity|]. destruct (nth_error (p_fibers p) j); reflexivity. }
+    repeat split.
+    + intros k b H. rewrite Hb in H. discriminate.
+    + intros k k' b H. rewrite Hb in H. discriminate.
+    + intros k b H. rewrite Hb in H. discriminate.
+    + intros [|j] Hk Ha; [congruence|]. destruct (nth_error (p_fibers p) j); simpl in Ha; contradiction.
+  - intros [|j].
+    + rewrite upd_same. unfold fiber_rel. simpl. split; [reflexivity|]. split; [reflexivity|].
+      split; [|split; reflexivity]. rewrite base_new by reflexivity. reflexivity.
+    + rewrite !upd_other by discriminate. simpl. destruct (nth_error (p_fibers p) j) as [d|].
+      * unfold fiber_rel. simpl. unfold ar. simpl. destruct (fd_param d); simpl; repeat split; reflexivity.
+      * unfold fiber_rel. simpl. repeat split; reflexivity.
+  - intros k. unfold cap_rel. exact I.
+Qed.
+
+(* M delivers what S delivers: for EVERY program of the mini-language - any number of fibers, every
+   interleaving of call / yield / return / throw among them, fibers calling fibers, yields and calls from
+   nested function frames, try blocks spanning switches, locals captured by closures, abandoned
+   suspended fibers - the printed output and the outcome of the mechanism equal those of the
+   coroutine Spec (with the repaired `load_fiber`: poke_nil_on_resume = true). *)
+Theorem transfer_faithful : forall p, eval_mech true p = eval_coroutine p.
+Proof.
+  intros p. unfold eval_mech, eval_mech_full, eval_coroutine.
+  destruct (init_related p) as (st & Hi & HR). rewrite Hi. apply run_sim. exact HR.
+Qed.
+
+(* the schedule-insensitive corollary with any fuel *)
+Corollary transfer_faithful_fuel : forall p fuel st, init_M true p = Some st ->
+  fst (run_M true p fuel st) = run_S p fuel (init_S p).
+Proof.
+  intros p fuel st Hi. destruct (init_related p) as (st' & Hi' & HR). rewrite Hi in Hi'. inversion Hi'; subst.
+  apply run_sim. exact HR.
+Qed.
+
+(* with the unrepaired `load_fiber` (argument poked only when given) the pending yield of a fiber
+   resumed by `f.call()` evaluates to the receiver of `Fiber.yield`, the class Fiber *)
+Definition resume_without_arg_witness : prog :=
+  mkProg [ACall None 1 None false; ACall None 1 None false]
+         [mkFdef false [AYield (Some X0) (Some (EConst 1)) false; APrint (EVar X0)]].
+
+Theorem resume_without_arg_refuted : exists p, eval_mech false p <> eval_coroutine p.
+Proof. exists resume_without_arg_witness. vm_compute. discriminate. Qed.
+
+Example resume_without_arg_values :
+  eval_mech false resume_without_arg_witness = ([EvPrint VFiberClass], ODone) /\
+  eval_coroutine resume_without_arg_witness = ([EvPrint VNil], ODone).
+Proof. split; vm_compute; reflexivity. Qed.
+
+(* the hypotheses of the simulation are satisfiable by a non-trivial state: two fibers suspended at once *)
+Example transfer_nontrivial :
+  let p := mkProg [ACall (Some X0) 1 (Some (EConst 5)) true; APrint (EVar X0); ACall (Some X1) 2 None false;
+                   ACall (Some X0) 1 (Some (EVar X1)) false; APrint (EVar X0)]
+                  [mkFdef true [ATry; AYield (Some X0) (Some EParam) true; AThrow 9; AEndTry; AReturn (Some (EVar X0))];
+                   mkFdef false [AYield None (Some (EConst 7)) false]] in
+  eval_coroutine p = ([EvPrint (VNum 5); EvCaught (VNum 9); EvPrint (VNum 7)], ODone).
+Proof. vm_compute. reflexivity. Qed.
+
+Print Assumptions transfer_faithful.
+Print Assumptions resume_without_arg_refuted.
